@@ -41,7 +41,12 @@ def build(S, spec, complex_=None):
         kw["symmetry"] = spec["sym"]
     if spec.get("fermionic"):
         kw["phases"] = {s: -1 for s in spec.get("phases", ())}
-        kw["oddpos"] = spec.get("oddpos")
+        op = spec.get("oddpos")
+        if isinstance(op, list):
+            # explicit (sorted) sequence of subsumed odd-position labels: [(label, dual), ...]
+            from symmray.fermionic_local_operators import FermionicOperator
+            op = [FermionicOperator(l, d) for l, d in op]
+        kw["oddpos"] = op
     x = cls(indices=indices, charge=spec["charge"], blocks=blocks, **kw)
     for groups in spec.get("prefuse", ()):
         x = x.fuse(*groups)
